@@ -78,6 +78,10 @@ def check(sc, obs):
             return "; ".join(p)
     if "hang" in obs:
         return f"hang: {obs['hang']}"
+    if obs.get("self_cancelled") is not None and obs.get("task_end") != "cancelled" \
+            and not any(x.endswith("fail") for _, x in sc["disps"]):
+        return (f"the task asked for its own cancellation as the last statement of the scope body but ended {obs.get('task_end')!r} "
+                f"(block outcome {obs.get('outcome')!r})")
     user_cleanup_fails = any(x.endswith("fail") for _, x in sc["disps"]) or any(e.endswith("fail") for e, _ in sc["disps"])
     if obs.get("cancel_delivered") and obs.get("task_end") != "cancelled" and not user_cleanup_fails:
         return (f"a cancellation was delivered at t={sc['cancel_at']} but the task ended {obs.get('task_end')!r} "
